@@ -206,7 +206,7 @@ func checkCipherSuiteParser(c *Ctx, r *Report, parser *ssa.Function) {
 	name := c.FnName(parser)
 	r.Fn(name)
 	data := parser.Params[0]
-	loops := naturalLoops(parser)
+	loops := viewLoops(parser)
 
 	r.Rule("parser-errors", "every error return of the record parser carries a nil slice, never a partial list", 4)
 	nErr := 0
@@ -291,6 +291,40 @@ func checkCipherSuiteParser(c *Ctx, r *Report, parser *ssa.Function) {
 	allInstrs(parser, false, func(in ssa.Instruction) {
 		if sel, _, st, ok := storeSel(in); ok && strings.HasSuffix(sel, "Enterprise") {
 			parts := map[int64]int64{}
+			// byteIndex: the index into the parser's input of a loaded byte, seen through a
+			// helper that receives a sub-slice of it
+			byteIndex := func(v ssa.Value) (int64, bool) {
+				ld, ok := stripConv(v).(*ssa.UnOp)
+				if !ok || ld.Op != token.MUL {
+					return 0, false
+				}
+				ia, ok := ld.X.(*ssa.IndexAddr)
+				if !ok {
+					return 0, false
+				}
+				k, ok := constInt(ia.Index)
+				if !ok {
+					return 0, false
+				}
+				base := viewVal(parser, ia.X)
+				for i := 0; i < 4; i++ {
+					sl, isSl := base.(*ssa.Slice)
+					if !isSl {
+						break
+					}
+					lo := int64(0)
+					if sl.Low != nil {
+						l, isK := constInt(sl.Low)
+						if !isK {
+							return 0, false
+						}
+						lo = l
+					}
+					k += lo
+					base = viewVal(parser, sl.X)
+				}
+				return k, true
+			}
 			var walk func(v ssa.Value)
 			walk = func(v ssa.Value) {
 				switch x := stripConv(v).(type) {
@@ -300,24 +334,20 @@ func checkCipherSuiteParser(c *Ctx, r *Report, parser *ssa.Function) {
 						walk(x.Y)
 					} else if x.Op == token.SHL {
 						if sh, ok := constInt(x.Y); ok {
-							if ld, ok := stripConv(x.X).(*ssa.UnOp); ok {
-								if ia, ok := ld.X.(*ssa.IndexAddr); ok {
-									if k, ok := constInt(ia.Index); ok {
-										parts[k] = sh
-									}
-								}
+							if k, ok := byteIndex(x.X); ok {
+								parts[k] = sh
 							}
 						}
 					}
 				case *ssa.UnOp:
-					if ia, ok := x.X.(*ssa.IndexAddr); ok {
-						if k, ok := constInt(ia.Index); ok {
-							parts[k] = 0
-						}
+					if k, ok := byteIndex(x); ok {
+						parts[k] = 0
 					}
 				}
 			}
-			walk(st.Val)
+			for _, o := range viewOrigins(parser, st.Val) {
+				walk(o)
+			}
 			if len(parts) == 3 && parts[2] == 0 && parts[3] == 8 && parts[4] == 16 {
 				okIANA = true
 			}
@@ -373,6 +403,23 @@ func checkCipherSuiteParser(c *Ctx, r *Report, parser *ssa.Function) {
 							if st, ok := r2.(*ssa.Store); ok {
 								if ld, ok := st.Val.(*ssa.UnOp); ok {
 									cell, _ = ld.X.(*ssa.Alloc)
+									// a by-value parameter of a spliced helper is a copy of the caller's
+									// record: the record to examine is the caller's
+									for i := 0; i < 4 && cell != nil; i++ {
+										prm := cellParam(cell)
+										if prm == nil || prm.Parent() == parser {
+											break
+										}
+										arg, ok := viewVal(parser, prm).(*ssa.UnOp)
+										if !ok || arg.Op != token.MUL {
+											break
+										}
+										next, ok := arg.X.(*ssa.Alloc)
+										if !ok {
+											break
+										}
+										cell = next
+									}
 								}
 							}
 						}
